@@ -38,14 +38,17 @@ def _case(draw, tier):
     cfg = draw(gen.store_cfgs())
     op = ops.weighted((5, ops.store_op(PIDS, 2, allow_none=True, validation=False)),
                       (2, ops.tag_op(PIDS, 2, cfg["algo"], never=False)), (2, ops.delete_op(PIDS)))
-    cks = draw(st.sampled_from(["none", "right", "right", "upper", "wrong"]))
+    # "other" = the digest of the OTHER content of the case (a client that mixed up the checksums of two files),
+    # half of the time under the store's own algorithm - then the wrong checksum is the cid of another object
+    cks = draw(st.sampled_from(["none", "right", "right", "upper", "wrong", "other"]))
     size = draw(st.sampled_from(["none", "right", "wrong"]))
     if cks == "none" and size == "wrong":
         size = "right"
     return {"cfg": cfg, "contents": [draw(gen.contents(max_small=20)), draw(gen.contents(max_small=20, big=False))],
             "ops": draw(st.lists(op, min_size=0, max_size=6)), "pid": draw(st.sampled_from(PIDS)),
             "c": draw(st.integers(0, 1)), "cks": cks, "cks_algo": draw(gen.algo_spelling()), "size": size,
-            "flip": draw(st.integers(0, 100))}
+            "flip": draw(st.integers(0, 100)),
+            "other_algo_is_store_algo": draw(st.booleans())}
 
 
 def strategy(tier):
@@ -70,9 +73,14 @@ def run_case(case, ctx):
     cks_ok = size_ok = True
     if case["cks"] != "none":
         algo = case["cks_algo"]
+        if case["cks"] == "other" and case.get("other_algo_is_store_algo"):
+            algo = cfg.halgo
         true = hashlib.new(gen.canon(algo), data).hexdigest()
-        cks = {"right": true, "upper": true.upper(), "wrong": gen.flip_nibble(true, case["flip"])}[case["cks"]]
-        cks_ok = case["cks"] != "wrong"
+        if case["cks"] == "other":
+            cks = hashlib.new(gen.canon(algo), run.contents[1 - case["c"]]).hexdigest()
+        else:
+            cks = {"right": true, "upper": true.upper(), "wrong": gen.flip_nibble(true, case["flip"])}[case["cks"]]
+        cks_ok = cks.lower() == true
     size = None
     if case["size"] != "none" and len(data) > 0:
         size = len(data) if case["size"] == "right" else len(data) + 1
